@@ -1,5 +1,6 @@
 import OrdModel.Proofs.IndexRunesupplyTx
 import OrdModel.Index.OracleRunesupply
+import OrdModel.Proofs.IndexLiftRuneSupplyChain
 /-!
 # C08 — Rune supply is conserved
 
@@ -125,5 +126,69 @@ theorem c08_mint_adds (st0 : State) (un0 : Balances) (blk : Block) (tx : Tx) (ar
     lk un1 r = lk un0 r +
       (match txMint st0 blk.height tx with | some (id, a) => if id = r then a else 0 | none => 0) :=
   ((mintStep_spec st0 un0 blk tx art hart).2 un1 h hn).2 r
+
+/-! ### the invariant in every reachable state (`Proofs/IndexLiftRune*.lean`) -/
+
+/-- outpoint `o` is an OP_RETURN output of a transaction of the chain -/
+def chainOpret (chain : List Block) (o : OutPoint) : Bool :=
+  (chain.flatMap (·.txs)).any (fun tx => tx.txid == o.txid && opretAt tx o.vout)
+
+/-- **Rune supply is conserved in every reachable state of the full index model**, for every
+configuration (any combination of the sat / address / inscription / rune indexes, any first rune
+height): after indexing any chain, for every rune entry the balances over all stored outpoints
+plus the burned amount equal premine + mints · mint amount; every stored balance is positive and
+names an existing rune; no stored row is empty or sits on an OP_RETURN output.
+
+Hypotheses (`RuneLift.SupplyChainOK`): blocks are consecutive from height 0 with at most 2^32
+transactions each (rune ids `(h, i)` are fresh — C11's invariant), and no txid occurs twice in
+the chain (outpoints are fresh).  Nothing else: that edict outputs are ≤ n and the pointer < n
+follows from the run having succeeded (the model asserts both), the sat / inscription pass is a
+frame for the rune tables (`c10_utxo_frame`), and no bound on amounts is needed for the equation
+over `Nat` (overflow would have been a `panic`, not an `ok`). -/
+theorem c08_chain_conserved (cfg : Cfg) (chain : List Block) (st : State) (evs : List Event)
+    (hr : run cfg chain = .ok (st, evs)) (hc : RuneLift.SupplyChainOK chain) :
+    Conserved st.runeEntries st.balances (chainOpret chain) := by
+  obtain ⟨hS, _⟩ := RuneLift.run_supply cfg chain st evs hr hc
+  refine ⟨fun id e hm => ?_, fun o row hm => ?_⟩
+  · have := hS.supply id e (RuneLift.get_of_mem_nodup hS.entNodup hm)
+    simpa using this
+  · obtain ⟨_, h2, h3, _, h5⟩ := hS.rows o row hm
+    refine ⟨fun id b hb => h3 id b hb, h2, ?_⟩
+    cases hco : chainOpret chain o with
+    | false => rfl
+    | true =>
+      unfold chainOpret at hco
+      obtain ⟨tx, htx, hc2⟩ := List.any_eq_true.1 hco
+      simp only [Bool.and_eq_true, beq_iff_eq] at hc2
+      have := h5 tx htx hc2.1
+      rw [this] at hc2
+      exact absurd hc2.2 (by simp)
+
+/-- `Reachable` form: every reachable state is conserved with respect to the chain that led to it -/
+theorem c08_reachable_conserved (cfg : Cfg) (st : State) (chain : List Block) (evs : List Event)
+    (hr : run cfg chain = .ok (st, evs)) (hc : RuneLift.SupplyChainOK chain) :
+    Reachable cfg st ∧ Conserved st.runeEntries st.balances (chainOpret chain) :=
+  ⟨⟨chain, evs, hr⟩, c08_chain_conserved cfg chain st evs hr hc⟩
+
+/-- non-vacuity: a chain that etches a rune with premine 100 (block 1), then mints 7 and sends 30
+to an OP_RETURN output (block 2) satisfies the hypotheses, is indexed successfully, and ends with
+77 units on an output, 30 burned, one mint: 77 + 30 = 100 + 1 · 7 -/
+def exChain : List Block :=
+  [⟨0, 0, 0, 0, []⟩,
+   ⟨1, 0, 0, 0, [⟨1, [], [⟨50, false, []⟩], [],
+      some (.runestone [] (some ⟨none, some 100, none, none, none, some ⟨some 7, some 2, none, none, none, none⟩, false⟩)
+        none none), 0⟩]⟩,
+   ⟨2, 0, 0, 0, [⟨2, [⟨⟨1, 0⟩, false, none, []⟩], [⟨0, true, []⟩, ⟨50, false, []⟩], [],
+      some (.runestone [⟨⟨1, 0⟩, 30, 0⟩] none (some ⟨1, 0⟩) none), 0⟩]⟩]
+
+example : RuneLift.SupplyChainOK exChain := by
+  refine ⟨?_, by decide⟩
+  intro i hi
+  have : i = 0 ∨ i = 1 ∨ i = 2 := by simp [exChain] at hi; omega
+  rcases this with rfl | rfl | rfl <;> simp [exChain]
+
+example : (match run ⟨false, false, false, false, true, 0, 0, 0⟩ exChain with
+    | .ok (st, _) => (st.balances, st.runeEntries.map (fun p => (p.2.burned, p.2.mints, p.2.premine)))
+    | _ => ([], [])) = ([(⟨2, 1⟩, [(⟨1, 0⟩, 77)])], [(30, 1, 100)]) := by decide
 
 end Ord.Index.C08
